@@ -10,7 +10,7 @@ VARIABLES scn, pc, i, printed, exit
 vars == <<scn, pc, i, printed, exit>>
 
 GoodSel == {"none", "incSources", "excSources", "incNames", "excNames", "nameFilter"}
-BadSel  == {"unknownName", "unknownSource", "badRegexp", "filterAndNames", "unknownProfile"}
+BadSel  == {"unknownName", "unknownSource", "badRegexp", "filterAndNames", "unknownProfile", "emptyName", "emptyNameAmongNames"}
 GoodCfg == {"none", "ok"}
 BadCfg  == {"missing", "badtoml"}
 \* the format an input is read with: a .der / .pem file suffix overrides the -format flag
